@@ -155,6 +155,7 @@ def check_C13(run):
     if not prepare(run):
         return
     C.proofs_step(run, 'C13')
+    general_l2(run)
     run.cov['rule'] = ('L2: real sync() against scripted doers; listings delivered one message at a time in a forced order; '
                        'exhaustive interleavings of small tree pairs + sampled interleavings and sibling permutations of larger ones; '
                        'non-trivial = the plan has at least one deletion and one copy; distinct by request line')
@@ -357,6 +358,7 @@ def check_C11(run):
     if not prepare(run):
         return
     C.proofs_step(run, 'C11')
+    general_l2(run)
     consts = run.extract_status.get('constants', {})
     cfg = tuple(consts.get(k) for k in ('firstChunk', 'chunkGrowth', 'maxChunk', 'smallBuf'))
     thorough = run.tier == 'thorough'
@@ -782,6 +784,7 @@ def check_C06(run):
             disagree.append(dict(filters=f, paths=p, impl=iv, oracle_verdicts=ov, model=model[i], request_line=mlines[midx.index(i)]))
     run.cov['disagreements_checked'] += len(cases)
 
+    general_l2(run)
     # L2: what the boss ships to the two doers (roots of every kind, all behaviours): the same, complete filter list
     scs = []
     for _ in range(400 if not thorough else 4000):
@@ -1500,6 +1503,31 @@ def gen_mixed(rng, n, faults=True):
     return [l2.gen_scenario(rng, faults=faults) for _ in range(n)]
 
 
+GENERIC_L2_ORACLES = None
+
+
+def general_l2(run, n=None, label='general-traces'):
+    """The shared L2 stream: the real sync() against scripted doers on mixed scenarios (roots of every kind, conflicts, filters,
+    behaviours, answers, dry runs, error replies, unexpected replies): exact trace/prompt/log equality with the boss model and every
+    model-independent oracle that is valid for *all* runs.  Run by every check whose property a change in boss_sync.rs can refute."""
+    global GENERIC_L2_ORACLES
+    if GENERIC_L2_ORACLES is None:
+        GENERIC_L2_ORACLES = [('source-read-only', oracle_src_readonly), ('ancestors', oracle_ancestors), ('dry-run-read-only', oracle_dry),
+                              ('consent-error-untouched', oracle_consent_error_untouched), ('behaviours', oracle_consent_behaviours),
+                              ('failure-reported', oracle_failure_reported), ('summary', oracle_summary), ('relay', oracle_relay),
+                              ('failed-delete-no-creation', oracle_failed_delete_no_creation), ('no-command-through-link', oracle_no_command_through_link),
+                              ('same-filters', oracle_same_filters), ('order', oracle_order)]
+    rng = run.rng
+    n = n or (600 if run.tier != 'thorough' else 6000)
+    scs = gen_mixed(rng, n)
+    for _ in range(n // 4):
+        sc_ = l2.gen_scenario(rng, rng.choice(['folder', 'mixed']), faults=False)
+        sc_.filters = rng.sample(['+.*', '-a', '+a/.*', '-.*\\.b', '-build|dist', '-.*\\.bak', '+d.*', '-x y'], rng.randint(1, 3))
+        scs.append(sc_)
+    return l2_stream(run, scs, GENERIC_L2_ORACLES, label,
+                     nontrivial=lambda r: any(is_mutating(c) for c in r['impl_r'].get('dest', [])) or r['impl_r'].get('res', '').startswith('err'))
+
+
 # ------------------------------------------------------------------ C02
 
 @prop('C02')
@@ -1515,6 +1543,7 @@ def check_C02(run):
                        'oracle = whitelist on the source trace, CreateRootAncestors only to the destination, at most once, never in a dry run; '
                        'L4: the CLI on real trees whose destination contains symlinks into populated decoy directories, snapshot of source + decoys + sandbox before/after; '
                        'non-trivial = the run sent at least one mutating command or ended in an error; distinct by request line')
+    general_l2(run)
     scs = corpus_l2('C02') + gen_mixed(rng, 2500 if not thorough else 25000)
     # deletions that fail: the barrier after the delete phase
     for _ in range(300 if not thorough else 3000):
@@ -1608,6 +1637,7 @@ def check_C03(run):
     if not prepare(run):
         return
     C.proofs_step(run, 'C03')
+    general_l2(run)
     rng = run.rng
     run.cov['rule'] = ('L2: behaviour assignments from the 4^5 product x prompt-answer scripts (skip/do, once/all, cancel at the k-th prompt, exhausted script = unattended terminal) x tree pairs mixing '
                        'newer/older/same-time files, extra entries, kind conflicts incl. the root; exact trace + prompts = model; oracles: consent error => nothing destructive sent; no deletion / overwrite '
@@ -1640,6 +1670,7 @@ def check_C05(run):
     if not prepare(run, need_cli=True):
         return
     C.proofs_step(run, 'C05')
+    general_l2(run)
     rng = run.rng
     run.cov['rule'] = ('L2: paired runs of the real sync() on the same scenario with and without dry_run; oracles: the dry run sends nothing mutating and no GetFileContent; its "Would ..." lines and summary counts '
                        'equal the real run\'s delete/create/copy commands (same kinds, same order, files once) whenever the real run succeeds; L4: CLI dry run on real trees, snapshot before/after incl. missing '
@@ -1704,6 +1735,7 @@ def check_C07(run):
     if not prepare(run, need_cli=True):
         return
     C.proofs_step(run, 'C07')
+    general_l2(run)
     rng = run.rng
     run.cov['rule'] = ('L2: for scenarios with a non-empty plan, an error reply injected at every mutating destination command index k (the boss sees it at whatever poll the real timing gives; '
                        'the model is asked for every poll index): oracle = the run does not end ok; summary numbers = commands sent; source failures (error reply, unexpected reply, length change); '
@@ -2540,6 +2572,7 @@ def check_C01(run):
                        'and spec files with several syncs; oracle: independent snapshot comparison incl. filter-excluded entries untouched; forbidden slash combinations: both sides untouched; '
                        'non-trivial = exit 0 with at least one change made; distinct by case')
     try:
+        general_l2(run)
         # ---- L2
         scs = corpus_l2('C01')
         for _ in range(250 if not thorough else 4000):
